@@ -93,7 +93,7 @@ def val():
 
 
 PATHS = ['a.x', 'a.y', 'a.b.x', 'a.b.y', 'a.b.b.x', 'c.x', 'c.y', 'c.param', 'a.x', 'a.b.x', 'a.x:bounds', 'c.y:bounds', 'a.b.x:bounds',
-         'a.b', 'a.b.b', 'a.param', 'a.b.param']       # (also the sub-object held by a sub-object as a value of its own)
+         'a.b', 'a.b.b', 'a.param', 'a.b.param', 'a', 'a', 'c']  # (also the sub-object itself, held as a value of its own)
 
 
 def shared_subobject_case(idx, rng, P, rep):
